@@ -38,6 +38,15 @@ type FibCase struct {
 	// (4096) -- they must all be executed (seeded defect C19-r4-1 dropped the overflow)
 	Bulk   int `json:"bulk,omitempty"`
 	BulkAt int `json:"bulkAt,omitempty"`
+	// Fail: transient faults of the forwarder's management interface. {k, n}: the k-th command the
+	// management thread executes (counting distinct commands from 0) fails n times (n <= 2, inside
+	// the installer's retry budget of 3) before it succeeds. Retried commands must still take
+	// effect in the order they were issued (seeded C19-r5-1 retried them later, out of order).
+	Fail [][2]int `json:"fail,omitempty"`
+	// Rush[i]: round i+1 follows round i at once (the table changed again before the management
+	// thread got through the commands of round i); the command stream is then judged after the
+	// next round that is given time
+	Rush []bool `json:"rush,omitempty"`
 }
 
 var fibNames = []string{"/r1/32=DV", "/p/a", "/p/a/x", "/q"}
@@ -65,6 +74,17 @@ func genFibCase(t *rapid.T) FibCase {
 		c.Bulk = rapid.SampledFrom([]int{300, 4095, 4096, 4097, 5000, 9000}).Draw(t, "bulk")
 		c.BulkAt = rapid.IntRange(0, n-1).Draw(t, "bulkAt")
 	}
+	if rapid.IntRange(0, 1).Draw(t, "rushed") == 0 {
+		for i := 0; i < n; i++ {
+			c.Rush = append(c.Rush, rapid.IntRange(0, 2).Draw(t, "rush") != 0)
+		}
+	}
+	if rapid.IntRange(0, 2).Draw(t, "faulty") == 0 {
+		nf := rapid.IntRange(1, 4).Draw(t, "nfail")
+		for i := 0; i < nf; i++ {
+			c.Fail = append(c.Fail, [2]int{rapid.IntRange(0, 24).Draw(t, "failAt"), rapid.IntRange(1, 2).Draw(t, "failN")})
+		}
+	}
 	return c
 }
 
@@ -73,10 +93,30 @@ type cmdRecorder struct {
 	ndn.Engine
 	mu   sync.Mutex
 	cmds []Cmd
+	// fault plan: ordinal of a distinct command -> how often it still fails; commands are told
+	// apart by the identity of their argument object (a retry passes the same object again)
+	plan   map[int]int
+	seen   map[*mgmt.ControlArgs]int
+	failed int
 }
 
 func (r *cmdRecorder) ExecMgmtCmd(module string, cmd string, args any) error {
 	a := args.(*mgmt.ControlArgs)
+	if r.plan != nil {
+		r.mu.Lock()
+		ord, known := r.seen[a]
+		if !known {
+			ord = len(r.seen)
+			r.seen[a] = ord
+		}
+		if r.plan[ord] > 0 {
+			r.plan[ord]--
+			r.failed++
+			r.mu.Unlock()
+			return fmt.Errorf("harness: transient failure of the management interface")
+		}
+		r.mu.Unlock()
+	}
 	c := Cmd{Module: module, Verb: cmd, Name: a.Name.String()}
 	if a.FaceId != nil {
 		c.Face = *a.FaceId
@@ -97,6 +137,18 @@ func execFibCase(t *testing.T) func(FibCase) evid.Result {
 	return func(c FibCase) (res evid.Result) {
 		synctest.Test(t, func(*testing.T) {
 			rec := &cmdRecorder{}
+			nFail := 0
+			if len(c.Fail) > 0 {
+				rec.plan, rec.seen = map[int]int{}, map[*mgmt.ControlArgs]int{}
+				for _, f := range c.Fail {
+					if f[1] > rec.plan[f[0]] && f[1] <= 2 {
+						rec.plan[f[0]] = f[1]
+					}
+				}
+				for _, n := range rec.plan {
+					nFail += n
+				}
+			}
 			th := nfdc.NewNfdMgmtThread(rec)
 			go th.Start()
 			cfg := &config.Config{Network: netPrefix, Router: "/r0", AdvertisementSyncInterval_ms: 5000, RouterDeadInterval_ms: 30000}
@@ -144,7 +196,17 @@ func execFibCase(t *testing.T) func(FibCase) evid.Result {
 					}
 				}
 				fib.RemoveUnmarked()
-				time.Sleep(time.Second + time.Duration(2*c.Bulk)*4*time.Millisecond) // the management thread needs 1 ms per command
+				rush := ri < len(c.Rush) && c.Rush[ri] && ri != len(c.Rounds)-1
+				if rush {
+					synctest.Wait() // no time passes
+					res.Classes = append(res.Classes, "table-changed-again-before-the-commands-were-executed")
+				} else {
+					time.Sleep(time.Duration(ri+1) * 50 * time.Millisecond) // (rushed rounds before this one)
+				}
+				// the management thread needs 1 ms per command and waits 100 ms after a failed attempt
+				if !rush {
+					time.Sleep(time.Second + time.Duration(2*c.Bulk)*4*time.Millisecond + time.Duration(nFail)*250*time.Millisecond)
+				}
 				synctest.Wait()
 				// from scratch: lowest finite cost per (prefix, face)
 				want := map[routeKey]uint64{}
@@ -176,7 +238,7 @@ func execFibCase(t *testing.T) func(FibCase) evid.Result {
 					}
 				}
 				rec.mu.Unlock()
-				if d := diffRoutes(got, want); d != "" && res.Err == nil {
+				if d := diffRoutes(got, want); d != "" && res.Err == nil && !rush {
 					res.Err = fmt.Errorf("round %d: registered routes differ from the desired set: %s\n registered: %s\n desired: %s", ri, d, fmtRoutes(got), fmtRoutes(want))
 				}
 				believed := map[routeKey]uint64{}
@@ -207,6 +269,9 @@ func execFibCase(t *testing.T) func(FibCase) evid.Result {
 					}
 				}
 				prev = want
+			}
+			if rec.failed > 0 {
+				res.Classes = append(res.Classes, "management-command-failed-transiently-and-was-retried")
 			}
 			th.Stop()
 		})
